@@ -9,7 +9,7 @@ import copy
 import math
 import random
 
-from .. import fitmon, gen
+from .. import attach, fitmon, gen
 from .. import refstats as RS
 from . import c06
 from .c03 import to_np
@@ -20,7 +20,10 @@ RULE = (
     "closed-form counting / shapefactor models x datasets (Poisson around several mu, zeros-deficit, Asimov non-integers) x "
     "initial points / bounds / fixed masks (fixed nuisance at a non-default value, POI fixed inside and at its bounds) x "
     "{scipy, minuit} x do_stitch x do_grad x backend. A case = (model, data, mask, configuration); non-trivial when >=3 free "
-    "parameters, or an optimum on a bound, or a fixed nuisance at a non-default value; closed-form cases counted too."
+    "parameters, or an optimum on a bound, or a fixed nuisance at a non-default value; closed-form cases counted too. Two "
+    "models per shard are also fitted through pyhf's unwrapped functions with every combination of the optional returns "
+    "(objective value, result object, and for MINUIT uncertainties and correlations): same point, honest objective, "
+    "fixed parameters with zero uncertainty."
 )
 ASSUMPTIONS = [
     "global optimality is only refutable: an adversarial search (4-start L-BFGS-B + Nelder-Mead polish) must fail to beat the fit by more than 1e-4 (SciPy) / 2e-2 (MINUIT at its default tolerance 0.1; largest gap on clean code 1.3e-3) in 2NLL",
@@ -28,7 +31,7 @@ ASSUMPTIONS = [
     "fits that report failure on generated (non closed-form) models are skipped and counted",
     "bounds excess allowed 1e-12*(hi-lo+1); fixed values exact; objective 1e-8 relative",
 ]
-REQUIRED = ("fit_bounds", "fit_fixed", "fit_objective", "better_point_search", "closed_form", "config_matrix", "nested_fits_observed")
+REQUIRED = ("fit_bounds", "fit_fixed", "fit_objective", "better_point_search", "closed_form", "config_matrix", "nested_fits_observed", "return_options")
 
 MARGIN = {"scipy": 1e-4, "minuit": 2e-2}  # >= 10x the largest gap seen on clean code (4e-7 / 1.3e-3 at MINUIT default tolerance 0.1)
 
@@ -121,6 +124,9 @@ def is_local_optimum(model, data, x, fun, bounds, fixed, margin):
     return fun - best <= margin
 
 
+PREFIT = {"scipy": {"solver_options": {"ftol": 10.0}, "tolerance": 1.0}, "minuit": {"tolerance": 50.0, "strategy": 0}}
+
+
 def set_opt(name):
     import pyhf
     pyhf.set_backend(pyhf.tensorlib, name)
@@ -185,6 +191,14 @@ def check_generated(case, shard, mon, rng):
     results = {}
     for opt in case["optimizers"]:
         set_opt(opt)
+        if case.get("prefit"):
+            # an earlier, deliberately coarse fit on the same optimizer object (per-call options): the fits that follow
+            # are ordinary calls and must not inherit anything from it
+            try:
+                pyhf.infer.mle.fit(data, model, list(init), list(bounds), list(fixed), **PREFIT[opt])
+            except Exception:
+                pass
+            shard.covered("histories", f"{opt}: coarse fit with per-call options before the judged fits")
         for stitch in (False, True):
             for grad in grads:
                 key = (opt, stitch, grad)
@@ -360,6 +374,101 @@ def check_nested(case, shard, mon):
     shard.covered("nested_callers", "hypotest(asymptotics), hypotest(q0), hypotest(toybased), upper_limit(grid)")
 
 
+def check_return_options(case, shard, rng):
+    """The fit's optional returns (objective value, result object, uncertainties, correlations) are the same fit:
+    the parameter column, the objective and the fixed values must not depend on which extras were asked for.
+    Runs on the UNWRAPPED pyhf functions (before the passive fit monitor, which reassembles tuples itself, is installed)."""
+    import numpy as np
+    import pyhf
+    from pyhf import exceptions as E
+
+    model = pyhf.Model(copy.deepcopy(case["spec"]), poi_name="mu")
+    cfg = model.config
+    data = list(case["data"]) + list(cfg.auxdata)
+    init, bounds, fixed = cfg.suggested_init(), cfg.suggested_bounds(), cfg.suggested_fixed()
+    scal = [cfg.par_slice(n).start for n in cfg.par_order if n != "mu" and cfg.param_set(n).n_parameters == 1 and not cfg.param_set(n).suggested_fixed[0]]
+    fixed_at = None
+    if scal and rng.random() < 0.6:
+        i = rng.choice(scal)
+        lo, hi = bounds[i]
+        init[i] = gen._round(init[i] + 0.3 * rng.choice([-1, 1]) * min(1.0, hi - init[i], init[i] - lo), 4)
+        fixed[i] = True
+        fixed_at = (i, init[i])
+    f2 = twice_nll_fn(model, data)
+    home = pyhf.tensorlib.name
+    for opt in case["optimizers"]:
+        set_opt(opt)
+        stitch = rng.random() < 0.5
+        kw = dict(do_stitch=stitch)
+        ctx = f"optimizer={opt} backend={home} do_stitch={stitch} fixed={fixed_at}"
+        c = dict(case, optimizer=opt, do_stitch=stitch, fixed_at=fixed_at, backend=home, kind="return-options")
+        try:
+            base = to_np(pyhf.infer.mle.fit(data, model, init, bounds, fixed, **kw))
+        except E.FailedMinimization:
+            shard.skip("fit reported failure")
+            continue
+        combos = [dict(return_fitted_val=True), dict(return_result_obj=True), dict(return_fitted_val=True, return_result_obj=True)]
+        if opt == "minuit":
+            combos += [dict(return_uncertainties=True), dict(return_uncertainties=True, return_fitted_val=True),
+                       dict(return_correlations=True, return_fitted_val=True), dict(return_uncertainties=True, return_correlations=True, return_fitted_val=True, return_result_obj=True)]
+        probs = []
+        for combo in combos:
+            try:
+                res = pyhf.infer.mle.fit(data, model, init, bounds, fixed, **kw, **combo)
+            except Exception as e:
+                probs.append(f"{sorted(combo)} raised {type(e).__name__}: {str(e)[:120]}")
+                continue
+            res = list(res) if isinstance(res, tuple) else [res]
+            want_len = 1 + sum(1 for k in ("return_correlations", "return_fitted_val", "return_result_obj") if combo.get(k))
+            if len(res) != want_len:
+                probs.append(f"{sorted(combo)}: {len(res)} results, expected {want_len}")
+                continue
+            x = to_np(res[0])
+            if combo.get("return_uncertainties"):
+                if x.shape != (cfg.npars, 2):
+                    probs.append(f"{sorted(combo)}: parameter block has shape {x.shape}, expected {(cfg.npars, 2)}")
+                    continue
+                unc, x = x[:, 1], x[:, 0]
+                if not np.all(np.isfinite(unc)) or np.any(unc < 0):
+                    probs.append(f"{sorted(combo)}: uncertainties {unc.tolist()}")
+                if any(unc[i] != 0.0 for i, f in enumerate(fixed) if f):
+                    probs.append(f"{sorted(combo)}: non-zero uncertainty on a fixed parameter: {unc.tolist()} fixed={fixed}")
+            if x.shape != base.shape or not np.array_equal(x, base):
+                probs.append(f"{sorted(combo)}: parameters {x.tolist()} differ from those of the plain call {base.tolist()}")
+                continue
+            k = 1
+            if combo.get("return_correlations"):
+                corr = to_np(res[k]); k += 1
+                free = [i for i, f in enumerate(fixed) if not f]
+                if corr.shape != (cfg.npars, cfg.npars):
+                    probs.append(f"{sorted(combo)}: correlation matrix has shape {corr.shape}")
+                else:
+                    sub = corr[np.ix_(free, free)]
+                    if not (np.allclose(np.diag(sub), 1.0, atol=1e-6) and np.allclose(sub, sub.T, atol=1e-9) and np.all(np.abs(sub) <= 1 + 1e-9)):
+                        probs.append(f"{sorted(combo)}: correlation block of the free parameters is not a correlation matrix (diag {np.diag(sub).tolist()})")
+                    if any(np.any(corr[i, :] != 0) or np.any(corr[:, i] != 0) for i, f in enumerate(fixed) if f):
+                        probs.append(f"{sorted(combo)}: non-zero correlation entries for a fixed parameter")
+            if combo.get("return_fitted_val"):
+                val = float(to_np(res[k]).reshape(-1)[0]); k += 1
+                ref = f2(x)
+                if not abs(val - ref) <= 1e-8 * (1 + abs(ref)):
+                    probs.append(f"{sorted(combo)}: reported objective {val!r} but twice the NLL at the returned point is {ref!r}")
+            if combo.get("return_result_obj"):
+                obj = res[k]
+                ox = to_np(obj.x)
+                ox = ox[:, 0] if ox.ndim == 2 else ox
+                if not np.array_equal(ox, base) or not abs(float(to_np(obj.fun).reshape(-1)[0]) - f2(x)) <= 1e-8 * (1 + abs(f2(x))) or not obj.success:
+                    probs.append(f"{sorted(combo)}: result object x={ox.tolist()} fun={float(to_np(obj.fun).reshape(-1)[0])!r} success={obj.success} disagree with the returned point")
+        if fixed_at is not None and float(base[fixed_at[0]]) != float(fixed_at[1]):
+            probs.append(f"fixed parameter {fixed_at[0]} moved from {fixed_at[1]!r} to {float(base[fixed_at[0]])!r}")
+        if probs:
+            shard.violate(f"C05/return-options:{opt}", "; ".join(probs[:3]) + f"; {ctx}", c, "return_options")
+        else:
+            shard.ok("return_options", len(combos))
+            shard.covered("return_options", f"{opt}: {len(combos)} combinations, stitch={stitch}, fixed nuisance={'yes' if fixed_at else 'no'}")
+    set_opt("scipy")
+
+
 def make_generated(rng, optimizers):
     import pyhf
 
@@ -385,7 +494,7 @@ def make_generated(rng, optimizers):
             spec["parameters"] = [{"name": rng.choice(scal), "fixed": True}]
         else:
             mask = "none"
-    return {"spec": spec, "data": data, "mask": mask, "poi_val": poi_val, "optimizers": optimizers, "seed": rng.randrange(1 << 30)}
+    return {"spec": spec, "data": data, "mask": mask, "poi_val": poi_val, "optimizers": optimizers, "seed": rng.randrange(1 << 30), "prefit": rng.random() < 0.4}
 
 
 def make_closed(rng, optimizers):
@@ -424,9 +533,12 @@ def run_shard(shard):
     p = shard.params
     pyhf.set_backend(p["backend"], "scipy", precision="64b")
     shard.covered("backends", p["backend"])
-    mon = fitmon.install(shard, "C05")
     rng = random.Random(p["seed"])
     opts = ["scipy", "minuit"]
+    rrng = random.Random(p["seed"] + 17)
+    for k in range(p.get("n_ret", 2)):
+        check_return_options(make_generated(rrng, opts), shard, rrng)
+    mon = fitmon.install(shard, "C05")
     for k in range(p["n_closed"]):
         case = make_closed(rng, opts)
         check_closed_form(case, shard, mon, rng)
@@ -454,7 +566,10 @@ def replay(rec, shard):
     pyhf.set_backend(be, "scipy", precision="64b")
     mon = fitmon.install(shard, "C05")
     rng = random.Random(1)
-    if "spec" in c and "optimizers" in c and c.get("kind") in ("counting", "shapefactor"):
+    if c.get("kind") == "return-options":
+        attach.unwrap_all()
+        check_return_options(dict(c, optimizers=[c["optimizer"]]), shard, random.Random(c.get("seed", 1)))
+    elif "spec" in c and "optimizers" in c and c.get("kind") in ("counting", "shapefactor"):
         check_closed_form(c, shard, mon, rng)
     elif "spec" in c and "optimizers" in c:
         check_generated(c, shard, mon, rng)
